@@ -48,6 +48,25 @@ pub fn check_restore(
     }
     let got = tree::snapshot(&dest);
     let res = match tree::first_diff(&tree::expected(want), &got, CmpOpts::restore()) {
+        Some((field, msg)) if cx.replay => {
+            // debugging aid: show what every band records for the offending path
+            let path = msg.split(':').next().unwrap_or("").to_string();
+            let ra = crate::format::scan(&w.arch);
+            for (id, b) in &ra.bands {
+                for e in b.all_entries() {
+                    if e.apath == path {
+                        eprintln!("   band {id}: {}", e.raw);
+                    }
+                }
+            }
+            if let Some(n) = want.0.get(&path) {
+                eprintln!("   model wants: {n:?}");
+            }
+            Err(Failure::new(
+                format!("{sig}/restore-diff/{field}"),
+                format!("after step {step}: restore {sel:?}: {msg}"),
+            ))
+        }
         Some((field, msg)) => Err(Failure::new(
             format!("{sig}/restore-diff/{field}"),
             format!("after step {step}: restore {sel:?}: {msg}"),
@@ -113,6 +132,13 @@ fn run(h: &History, cx: &mut Cx) -> CaseResult {
         let step = w.apply(op);
         if cx.replay {
             eprintln!("step {i}: {op:?}\n   -> {}", step_summary(&step));
+            if let Ok(watch) = std::env::var("VERIF_WATCH") {
+                eprintln!("   model {watch}: {:?}", w.tree.0.get(&watch));
+                eprintln!("   disk  {watch}: {:?}", std::fs::symlink_metadata(tree::fs_path(&w.src, &watch)).map(|m| {
+                    use std::os::unix::fs::MetadataExt;
+                    (m.len(), m.mtime(), m.mtime_nsec())
+                }));
+            }
         }
         match &step {
             StepKind::Mutated => {}
